@@ -1,7 +1,210 @@
-import Ccp.Model.Edit
+import Ccp.Proofs.Edit
+/-!
+# C06 — edits change exactly the targeted lines
+
+Property theorems only; helper lemmas and the specification vocabulary live in
+`Ccp.Proofs.Edit`:
+
+* `NoFilter s` := `s.auto = false ∨ s.cfg.ignoreBlank = false` — the commit that may follow
+  the edit does not filter blank lines.  This one hypothesis covers both cases of the text
+  effect: auto-commit off (the texts are what the list operation left), and auto-commit on
+  without `ignore_blank_lines` (`bootstrap` keeps the texts, `bootstrap_keeps_texts`).
+  With auto-commit on *and* `ignore_blank_lines` the texts after the step are the
+  blank-filtered ones of the same list (`C07`), which is not a C06 statement.
+* `insertPos n k` / `popPos n k` — Python's index normalisation for `list.insert` / `list.pop`;
+* `expandLine after x a m` := `if m then (if after then [a, x] else [x, a]) else [a]`;
+* `matchCount n row` := number of `true` among the first `n` row entries;
+* `Forest`, `ancestors` are the C03 vocabulary.
+
+All theorems are about `Ccp.Model.Edit.step`, for all states and payloads.  Object handles
+(`i`) are line numbers of the committed tree and the model only accepts them on a state
+without uncommitted changes (`dirty = false`) — the harness skips such calls on both
+sides (`dirtyHandle`).  Regular expressions are oracle data: `row[i]` says whether the
+regex matched line `i`, `reSub` carries the substituted text.
+-/
 namespace Ccp.C06
 open Ccp.Tree Ccp.Edit Ccp.Py
 
-theorem placeholder_probe (s : S) : (step s .probe).1 = s := rfl
+/-! ## what "one line added / one line changed, all others unchanged and in order" means -/
+
+/-- A list of the form `take j ++ [x] ++ drop j` has exactly one more element, `x` sits at
+`j`, removing position `j` gives back the old list, the lines before `j` keep their
+position and the lines from `j` on move down by one. -/
+theorem insertion_frame (old : List Str) (j : Nat) (x : Str) (hj : j ≤ old.length) :
+    let new := old.take j ++ x :: old.drop j
+    new.length = old.length + 1 ∧ new[j]? = some x ∧ new.eraseIdx j = old ∧
+    (∀ m, m < j → new[m]? = old[m]?) ∧ (∀ m, j ≤ m → new[m + 1]? = old[m]?) :=
+  inserted_frame old j x hj
+
+/-- `List.set i x` changes position `i` only. -/
+theorem replacement_frame (old : List Str) (i : Nat) (x : Str) (hi : i < old.length) :
+    (old.set i x).length = old.length ∧ (old.set i x)[i]? = some x ∧
+    ∀ m, m ≠ i → (old.set i x)[m]? = old[m]? := set_frame old i x hi
+
+/-- Python's index normalisation of `list.insert(k, x)` on a list of length `n`. -/
+theorem insertPos_spec (n : Nat) (k : Int) :
+    insertPos n k ≤ n ∧
+    (0 ≤ k → k ≤ n → (insertPos n k : Int) = k) ∧ ((n : Int) < k → insertPos n k = n) ∧
+    (k < 0 → -(n : Int) ≤ k → (insertPos n k : Int) = n + k) ∧ (k < -(n : Int) → insertPos n k = 0) := by
+  unfold insertPos
+  refine ⟨?_, ?_, ?_, ?_, ?_⟩ <;> split <;> omega
+
+/-- Python's index normalisation of `list.pop(k)` for an index in range. -/
+theorem popPos_spec (n : Nat) (k : Int) :
+    (0 ≤ k → (popPos n k : Int) = k) ∧ (k < 0 → -(n : Int) ≤ k → (popPos n k : Int) = n + k) := by
+  unfold popPos
+  refine ⟨?_, ?_⟩ <;> split <;> omega
+
+/-! ## list-level insert / append / pop -/
+
+/-- **`ConfigList.insert(k, txt)`** always succeeds and is exactly `list.insert`: one line
+added at the normalised position, everything else unchanged and in order
+(`insertion_frame`). -/
+theorem insert_spec (s : S) (k : Int) (txt : Str) (hnf : NoFilter s) :
+    (step s (.insert k txt)).2 = .ok () ∧
+    (step s (.insert k txt)).1.texts
+      = s.texts.take (insertPos s.texts.length k) ++ txt :: s.texts.drop (insertPos s.texts.length k) := by
+  refine ⟨rfl, ?_⟩
+  simp only [Edit.step, edited_texts s hnf, pyInsert_eq]
+
+/-- **`ConfigList.append(txt)`** always succeeds and adds the line at the end. -/
+theorem append_spec (s : S) (txt : Str) (hnf : NoFilter s) :
+    (step s (.append txt)).2 = .ok () ∧ (step s (.append txt)).1.texts = s.texts ++ [txt] := by
+  refine ⟨rfl, ?_⟩
+  simp only [Edit.step, edited_texts s hnf]
+
+/-- **`ConfigList.pop(k)`**: in range (`-n ≤ k < n`) it removes exactly the line at the
+normalised position; out of range it is an `IndexError` and the state is unchanged. -/
+theorem pop_spec (s : S) (k : Int) (hnf : NoFilter s) :
+    (-(s.texts.length : Int) ≤ k ∧ k < s.texts.length →
+      (step s (.pop k)).2 = .ok () ∧
+      (step s (.pop k)).1.texts = s.texts.eraseIdx (popPos s.texts.length k) ∧
+      popPos s.texts.length k < s.texts.length) ∧
+    (k < -(s.texts.length : Int) ∨ (s.texts.length : Int) ≤ k →
+      step s (.pop k) = (s, .error .indexError)) := by
+  constructor
+  · intro h
+    obtain ⟨h1, h2⟩ := pyPop_in_range s.texts k h
+    simp only [Edit.step, h1, edited_texts s hnf]
+    exact ⟨trivial, trivial, h2⟩
+  · intro h
+    simp only [Edit.step, pyPop_out_of_range s.texts k h]
+
+/-! ## list-level insert_before / insert_after (regex) -/
+
+/-- the text effect shared by both directions: an explicit `List.flatMap` characterisation
+(line `a` at index `i` becomes `[x, a]` / `[a, x]` when `row[i]` is true and stays `[a]`
+otherwise — missing row entries count as no match), the length grows by the number of
+matching lines, the old lines survive unchanged and in order, everything that is not a
+copy of the payload is untouched, and the payload occurs exactly `matchCount` more often -/
+theorem insertAtMatches_spec (after : Bool) (x : Str) (l : List Str) (row : List Bool) :
+    insertAtMatches after x l row
+      = l.zipIdx.flatMap (fun p => expandLine after x p.1 (row.getD p.2 false)) ∧
+    (insertAtMatches after x l row).length = l.length + matchCount l.length row ∧
+    l.Sublist (insertAtMatches after x l row) ∧
+    (insertAtMatches after x l row).filter (· ≠ x) = l.filter (· ≠ x) ∧
+    (insertAtMatches after x l row).count x = l.count x + matchCount l.length row :=
+  ⟨insertAtMatches_eq_flatMap after x l row, insertAtMatches_length after x l row,
+   insertAtMatches_sublist after x l row, insertAtMatches_filter after x l row,
+   insertAtMatches_count after x l row⟩
+
+/-- **list-level `insert_before(regex, txt)`**: with a non-empty regex and a payload that
+is not a blank line under `ignore_blank_lines`, the new text list is the old one with
+exactly one copy of the payload directly before every matching line
+(`insertAtMatches_spec` with `after = false`). -/
+theorem listInsertBefore_spec (s : S) (row : List Bool) (txt : Str) (hnf : NoFilter s)
+    (hb : ¬ (isBlank txt = true ∧ s.cfg.ignoreBlank = true)) :
+    (step s (.listInsBefore false row txt)).2 = .ok () ∧
+    (step s (.listInsBefore false row txt)).1.texts = insertAtMatches false txt s.texts row := by
+  have hb' : (isBlank txt && s.cfg.ignoreBlank) = false := by
+    cases h1 : isBlank txt <;> cases h2 : s.cfg.ignoreBlank <;> simp_all
+  simp [Edit.step, hb', edited_texts s hnf]
+
+/-- **list-level `insert_after(regex, txt)`**: one copy directly after every matching line. -/
+theorem listInsertAfter_spec (s : S) (row : List Bool) (txt : Str) (hnf : NoFilter s)
+    (hb : ¬ (isBlank txt = true ∧ s.cfg.ignoreBlank = true)) :
+    (step s (.listInsAfter false row txt)).2 = .ok () ∧
+    (step s (.listInsAfter false row txt)).1.texts = insertAtMatches true txt s.texts row := by
+  have hb' : (isBlank txt && s.cfg.ignoreBlank) = false := by
+    cases h1 : isBlank txt <;> cases h2 : s.cfg.ignoreBlank <;> simp_all
+  simp [Edit.step, hb', edited_texts s hnf]
+
+/-- A regex that matches no line changes nothing. -/
+theorem listInsert_no_match (after : Bool) (x : Str) (l : List Str) (row : List Bool)
+    (h : matchCount l.length row = 0) : insertAtMatches after x l row = l := by
+  have h1 := insertAtMatches_sublist after x l row
+  have h2 := insertAtMatches_length after x l row
+  exact (h1.eq_of_length (by omega)).symm
+
+/-- The refusals of the list-level inserts: a blank payload under `ignore_blank_lines` is
+`InvalidParameters`, an empty regex is `ValueError`; the state is unchanged. -/
+theorem listInsert_errors (s : S) (e : Bool) (row : List Bool) (txt : Str) :
+    (isBlank txt = true ∧ s.cfg.ignoreBlank = true →
+      step s (.listInsBefore e row txt) = (s, .error .invalidParameters) ∧
+      step s (.listInsAfter e row txt) = (s, .error .invalidParameters)) ∧
+    (¬ (isBlank txt = true ∧ s.cfg.ignoreBlank = true) → e = true →
+      step s (.listInsBefore e row txt) = (s, .error .valueError) ∧
+      step s (.listInsAfter e row txt) = (s, .error .valueError)) := by
+  constructor
+  · rintro ⟨h1, h2⟩; simp [Edit.step, h1, h2]
+  · intro hb he
+    have hb' : (isBlank txt && s.cfg.ignoreBlank) = false := by
+      cases h1 : isBlank txt <;> cases h2 : s.cfg.ignoreBlank <;> simp_all
+    simp [Edit.step, hb', he]
+
+/-! ## object-level insert_before / insert_after -/
+
+/-- **`obj.insert_before(txt)`** on the object at line `i` of a committed state: exactly one
+line is added, at position `i`, directly before the object's line (which moves to
+`i + 1`); everything else is unchanged and in order. -/
+theorem objInsertBefore_spec (s : S) (i : Nat) (txt : Str) (hnf : NoFilter s)
+    (hd : s.dirty = false) (hi : i < s.texts.length)
+    (hb : ¬ (isBlank txt = true ∧ s.cfg.ignoreBlank = true)) :
+    let new := (step s (.objInsBefore i txt)).1.texts
+    (step s (.objInsBefore i txt)).2 = .ok () ∧
+    new = s.texts.take i ++ txt :: s.texts.drop i ∧
+    new.length = s.texts.length + 1 ∧ new[i]? = some txt ∧ new[i + 1]? = s.texts[i]? ∧
+    new.eraseIdx i = s.texts := by
+  have hb' : (isBlank txt && s.cfg.ignoreBlank) = false := by
+    cases h1 : isBlank txt <;> cases h2 : s.cfg.ignoreBlank <;> simp_all
+  have hg : ¬ (s.dirty = true ∨ s.texts.length ≤ i) := by rw [hd]; simp; omega
+  have ht : (step s (.objInsBefore i txt)).1.texts = s.texts.take i ++ txt :: s.texts.drop i := by
+    simp [Edit.step, hg, hb', edited_texts s hnf]
+  have hr : (step s (.objInsBefore i txt)).2 = .ok () := by simp [Edit.step, hg, hb']
+  intro new
+  have hf := inserted_frame s.texts i txt (by omega)
+  simp only [new, ht]
+  exact ⟨hr, trivial, hf.1, hf.2.1, hf.2.2.2.2 i (Nat.le_refl _), hf.2.2.1⟩
+
+/-- **`obj.insert_after(txt)`**: exactly one line is added, at position `i + 1`, directly
+after the object's line (which stays at `i`); everything else is unchanged and in order. -/
+theorem objInsertAfter_spec (s : S) (i : Nat) (txt : Str) (hnf : NoFilter s)
+    (hd : s.dirty = false) (hi : i < s.texts.length)
+    (hb : ¬ (isBlank txt = true ∧ s.cfg.ignoreBlank = true)) :
+    let new := (step s (.objInsAfter i txt)).1.texts
+    (step s (.objInsAfter i txt)).2 = .ok () ∧
+    new = s.texts.take (i + 1) ++ txt :: s.texts.drop (i + 1) ∧
+    new.length = s.texts.length + 1 ∧ new[i]? = s.texts[i]? ∧ new[i + 1]? = some txt ∧
+    new.eraseIdx (i + 1) = s.texts := by
+  have hb' : (isBlank txt && s.cfg.ignoreBlank) = false := by
+    cases h1 : isBlank txt <;> cases h2 : s.cfg.ignoreBlank <;> simp_all
+  have hg : ¬ (s.dirty = true ∨ s.texts.length ≤ i) := by rw [hd]; simp; omega
+  have ht : (step s (.objInsAfter i txt)).1.texts
+      = s.texts.take (i + 1) ++ txt :: s.texts.drop (i + 1) := by
+    simp [Edit.step, hg, hb', edited_texts s hnf]
+  have hr : (step s (.objInsAfter i txt)).2 = .ok () := by simp [Edit.step, hg, hb']
+  intro new
+  have hf := inserted_frame s.texts (i + 1) txt (by omega)
+  simp only [new, ht]
+  exact ⟨hr, trivial, hf.1, hf.2.2.2.1 i (by omega), hf.2.1, hf.2.2.1⟩
+
+/-- A blank payload under `ignore_blank_lines` is refused with `InvalidParameters`. -/
+theorem objInsert_blank_refused (s : S) (i : Nat) (txt : Str)
+    (hd : s.dirty = false) (hi : i < s.texts.length)
+    (hb : isBlank txt = true ∧ s.cfg.ignoreBlank = true) :
+    step s (.objInsBefore i txt) = (s, .error .invalidParameters) ∧
+    step s (.objInsAfter i txt) = (s, .error .invalidParameters) := by
+  have hg : ¬ (s.dirty = true ∨ s.texts.length ≤ i) := by rw [hd]; simp; omega
+  simp [Edit.step, hg, hb.1, hb.2]
 
 end Ccp.C06
